@@ -37,7 +37,8 @@ type C13Plan struct {
 	Inputs     [][]byte  `json:"inputs"`
 	Tasks      [][]C13Op `json:"tasks"`
 	Schedule   []int     `json:"schedule"`
-	After      string    `json:"after"` // prng | first : choices once Schedule is exhausted
+	After      string    `json:"after"` // prng | first | pct : choices once Schedule is exhausted
+	PCTDepth   int       `json:"pct_depth,omitempty"`
 	Stickiness float64   `json:"stickiness"`
 	MapOrder   MapOrder  `json:"map_order"`
 	PoolFlush  bool      `json:"pool_flush,omitempty"` // empty sync.Pools at baton hand-over (experiment knob, off: see DESIGN §2.4)
@@ -103,6 +104,10 @@ func genC13(seed uint64, idx int, tier string) interface{} {
 		pl.Tasks = append(pl.Tasks, ops)
 	}
 	pl.Stickiness = []float64{0, 0.5, 0.9}[r.Intn(3)]
+	if r.Bool(0.3) {
+		pl.After = "pct"
+		pl.PCTDepth = r.Range(2, 4)
+	}
 	pl.MapOrder = MapOrder{Mode: []string{"canonical", "reversed", "random", "random"}[r.Intn(4)], Seed: r.U64()}
 	return pl
 }
@@ -234,10 +239,26 @@ func c13HeldHook(delta int) {
 	}
 }
 
+// map order on the main goroutine: canonical, except while the shared policy is being
+// constructed (construction-time lookups must not depend on map order either)
+var mainMapMode string
+var mainMapSeed, mainMapVisits uint64
+
 func c13OrderHook(site string, n int) []int {
 	c := getCur()
 	if c < 0 {
-		return nil // main goroutine: canonical order
+		if mainMapMode == "" || n < 2 {
+			return nil // main goroutine: canonical order
+		}
+		mainMapVisits++
+		if mainMapMode == "reversed" {
+			perm := make([]int, n)
+			for i := range perm {
+				perm[i] = n - 1 - i
+			}
+			return perm
+		}
+		return NewRNG(Mix(mainMapSeed, 0xb111d, mainMapVisits)).Perm(n)
 	}
 	t := tasks[c]
 	if n >= 1 && t.held == 0 {
@@ -439,8 +460,14 @@ func runC13inner(planJSON []byte, canary bool) (*RunResult, error) {
 	cbHook = c13CallbackHook
 	clearTasks()
 
-	// construction is finished, on this goroutine, before the policy is shared
+	// construction is finished, on this goroutine, before the policy is shared; it runs under the
+	// plan's map order, the reference policies are built under the canonical one
+	if pl.MapOrder.Mode != "canonical" {
+		mainMapMode, mainMapSeed, mainMapVisits = pl.MapOrder.Mode, pl.MapOrder.Seed, 0
+	}
 	shared := BuildPolicy(pl.Recipe)
+	res.count("map_visits_during_construction", int64(mainMapVisits))
+	mainMapMode = ""
 	inputs := make([][]byte, len(pl.Inputs))
 	snaps := make([][]byte, len(pl.Inputs))
 	for i, in := range pl.Inputs {
@@ -461,7 +488,7 @@ func runC13inner(planJSON []byte, canary bool) (*RunResult, error) {
 			siteVisits: map[string]int{}, sitePerms: map[string]map[string]bool{}, fixture: pl.Fixture}
 	}
 	sc := &scheduler{bp: bp, n: n, schedule: pl.Schedule, after: pl.After, stick: pl.Stickiness,
-		rng: NewRNG(Mix(pl.RunSeed, 0x5c4ed)), stepCap: 6000, pointCount: map[uint32]int{}, poolFlush: pl.PoolFlush, blockMs: c13BlockMs}
+		rng: NewRNG(Mix(pl.RunSeed, 0x5c4ed)), stepCap: 6000, pointCount: map[uint32]int{}, poolFlush: pl.PoolFlush, blockMs: c13BlockMs, pctDepth: pl.PCTDepth, pctHorizon: 150}
 	if !canary {
 		newRaceReports() // anything older belongs to an earlier run
 	}
@@ -569,6 +596,11 @@ func runC13inner(planJSON []byte, canary bool) (*RunResult, error) {
 	}
 	res.count("tasks", int64(n))
 	res.count("map_order."+pl.MapOrder.Mode, 1)
+	if pl.After == "pct" {
+		res.count("sched_mode.pct", 1)
+	} else {
+		res.count(fmt.Sprintf("sched_mode.random_stick_%.1f", pl.Stickiness), 1)
+	}
 	var sites []string
 	for _, t := range tasks {
 		for s := range t.siteVisits {
